@@ -3,7 +3,8 @@
 use super::common::*;
 use crate::engine::*;
 use crate::gens::GenParams;
-use crate::interp::{self, Child, Node, Outcome, RunOpts, Tok};
+use super::structure::*;
+use crate::interp::{self, Outcome, RunOpts};
 use crate::loader::Sym;
 use crate::pipeline::Opts;
 use crate::util::hash_of;
@@ -11,36 +12,6 @@ use proptest::strategy::BoxedStrategy;
 use serde_json::json;
 
 pub struct C02;
-
-fn non_skip<'a>(r: &Ready, c: &'a [Node]) -> Vec<&'a Node> {
-    c.iter().filter(|n| !matches!(n, Node::T(t) if r.is_skip_type(t.ty))).collect()
-}
-
-/// does `children` (non-skip) match the right-hand side of production p ?
-fn matches_rhs(r: &Ready, p: usize, name: &str, children: &[&Node]) -> bool {
-    let (_, prods) = r.loaded.tables.ll.as_ref().unwrap();
-    let Some(pr) = prods.get(p) else { return false };
-    if r.loaded.tables.non_terminals.get(pr.lhs).map(|s| s.as_str()) != Some(name) {
-        return false;
-    }
-    if pr.rhs.len() != children.len() {
-        return false;
-    }
-    pr.rhs.iter().zip(children).all(|(s, c)| match (s, c) {
-        (Sym::T(t), Node::T(tok)) => *t == tok.ty,
-        (Sym::N(n), Node::N(nm, _)) => r.loaded.tables.non_terminals.get(*n) == Some(nm),
-        _ => false,
-    })
-}
-
-fn post_order<'a>(n: &'a Node, out: &mut Vec<&'a Node>) {
-    if let Node::N(_, c) = n {
-        for x in c {
-            post_order(x, out);
-        }
-        out.push(n);
-    }
-}
 
 impl Check for C02 {
     type Case = ParseCase;
@@ -104,70 +75,11 @@ impl Check for C02 {
             }
             st.eval(1);
             let fail = |sig: &str, m: String| Verdict::Fail(format!("C02:{sig}"), format!("{m}\ninput {text:?}\ntrace {:?}\ntree {:?}\n{gtext}", run.trace.actions, run.tree));
-            if run.unbalanced {
-                return fail("unbalanced_tree_builder_calls", "open/close calls do not nest".into());
-            }
-            let Some(Node::N(root_name, root_children)) = &run.tree else {
-                return fail("no_tree", "successful parse without tree".into());
+            let shape = match check_structure(&r, &run, &text, r.max_k()) {
+                Ok(s) => s,
+                Err((sig, m)) => return fail(&sig, m),
             };
-            if !root_name.is_empty() {
-                return fail("root_not_anonymous", format!("root is {root_name:?}"));
-            }
-            let top = non_skip(&r, root_children);
-            let start_name = &r.loaded.tables.non_terminals[r.loaded.tables.start_index];
-            if top.len() != 1 || !matches!(top[0], Node::N(n, _) if n == start_name) {
-                return fail("root_is_not_start_symbol", format!("root children: {:?}", top.iter().map(|n| match n { Node::N(n, _) => n.clone(), Node::T(t) => t.text.clone() }).collect::<Vec<_>>()));
-            }
-            if case.grammar.start != *start_name {
-                return fail("start_symbol_differs_from_grammar", format!("{start_name} vs {}", case.grammar.start));
-            }
-            // every inner node is one production
-            let mut inner = vec![];
-            post_order(top[0], &mut inner);
-            let mut eps = 0;
-            for n in &inner {
-                let Node::N(name, ch) = n else { unreachable!() };
-                let ns = non_skip(&r, ch);
-                if ns.is_empty() {
-                    eps += 1;
-                }
-                let any = (0..prods.len()).any(|p| matches_rhs(&r, p, name, &ns));
-                if !any {
-                    return fail("node_is_no_production", format!("node {name} with children {:?} matches no production", ns.iter().map(|c| match c { Node::N(n, _) => n.clone(), Node::T(t) => format!("'{}'", t.text) }).collect::<Vec<_>>()));
-                }
-            }
-            // actions = post-order of inner nodes
-            if run.trace.actions.len() != inner.len() {
-                return fail("action_count_differs", format!("{} actions for {} inner nodes", run.trace.actions.len(), inner.len()));
-            }
-            for (i, ((p, args), n)) in run.trace.actions.iter().zip(&inner).enumerate() {
-                let Node::N(name, ch) = n else { unreachable!() };
-                let ns = non_skip(&r, ch);
-                if !matches_rhs(&r, *p, name, &ns) {
-                    return fail("action_order_or_production_wrong", format!("action #{i} is production {p} but post-order node #{i} is {name}"));
-                }
-                let same = args.len() == ns.len()
-                    && args.iter().zip(&ns).all(|(a, c)| match (a, c) {
-                        (Child::T(t), Node::T(u)) => t == u,
-                        (Child::N(n), Node::N(m, _)) => n == m,
-                        _ => false,
-                    });
-                if !same {
-                    return fail("action_children_differ", format!("action #{i} (production {p}) got {args:?}"));
-                }
-            }
-            // leaves = scanner tokens
-            let toks = match interp::drain(&r.loaded, &text, r.max_k().max(1)) {
-                Ok(t) => t,
-                Err(e) => return fail("token_stream_failure", e),
-            };
-            let mut leaves: Vec<&Tok> = vec![];
-            run.tree.as_ref().unwrap().leaves(&mut leaves);
-            let expect: Vec<&Tok> = toks.iter().filter(|t| t.ty != 0).collect();
-            if leaves.len() != expect.len() || leaves.iter().zip(&expect).any(|(a, b)| (a.ty, a.start, a.end, &a.text) != (b.ty, b.start, b.end, &b.text)) {
-                return fail("leaves_differ_from_tokens", format!("leaves {:?}\ntokens {:?}", leaves.iter().map(|t| (&t.text, t.ty)).collect::<Vec<_>>(), expect.iter().map(|t| (&t.text, t.ty)).collect::<Vec<_>>()));
-            }
-            let h = top[0].height();
+            let (h, eps) = (shape.height, shape.eps);
             st.class(&format!("tree_height={}", h.min(8)));
             if eps > 0 {
                 st.class("with_epsilon_production");
